@@ -508,8 +508,10 @@ def functional(ctx, model_ok):
     return dis, fails
 
 
-def broken_placeholder(proved, dis):
+def broken_placeholder(proved, dis, mdis=None):
     b = []
+    if mdis:
+        b.append("trace correspondence Model/ChanSys.v (%d disagreements)" % len(mdis))
     if not proved:
         b.append("Coq proof of Props/C01.v")
     if dis:
@@ -521,25 +523,74 @@ KEY_COOP = "C01:coop-close-fee-exceeds-funder-balance"
 KEY_LIMIT = "C01:limit-not-accepted-by-funder-peer"
 
 
+def funder_can_pay(ct, d, local, addl, feerate):
+    """Balance clause of get_next_commitment_stats at a node whose HTLCs are all committed: can the funder
+    pay anchors + commit_tx_fee(feerate, non-dust + addl) on the local / remote commitment?"""
+    w = ref_weights(ct)
+    dust = d["hd"] if local else d["cd"]
+    htlcs = [(False, h[1]) for h in d["in"]] + [(True, h[1]) for h in d["out"]]
+    nd = 0
+    for (outbound, amt) in htlcs:
+        offered = (outbound == local)
+        if amt // 1000 >= dust + ref_htlc_tx_fee(ct, feerate, offered):
+            nd += 1
+    fee = feerate * (w["base"] + 172 * (nd + addl)) // 1000
+    anch = 660 if ct == 1 else 0
+    holder = d["self"] - sum(a for (o, a) in htlcs if o)
+    cp = d["v"] * 1000 - d["self"] - sum(a for (o, a) in htlcs if not o)
+    bal = holder if d["fund"] else cp
+    return bal - anch * 1000 - fee * 1000 >= 0
+
+
 def classify_known(rec, f):
     """Maps a trace-judge failure to the key of a known class of findings (or None). The class
-    predicates are checked on the trace itself, so that only that class is ever excused."""
+    predicates are re-checked on the trace itself so that only that exact class is ever excused; any
+    other failed cooperative close / refused in-limit HTLC stays an unlisted violation."""
     steps = rec.get("steps", [])
-    if f["judge"] == "no-panic" and "value_to_holder >= 0" in f["why"] and steps:
-        # cooperative close: the funder's whole-satoshi balance is below its own minimum closing fee
+    ct = rec.get("cfg", {}).get("ct", 0)
+    coop_panic = f["judge"] == "no-panic" and "value_to_holder >= 0" in f["why"]
+    coop_err = f["judge"] == "b:no-error" and "Value to holder below 0" in f["why"]
+    if (coop_panic or coop_err) and steps:
+        # (1) the funder's whole-satoshi balance is strictly below its own minimum closing fee
         est = rec.get("cfg", {}).get("fee", 253)
         for s in steps:
             if s["l"].startswith("fee ") and not s.get("skip"):
                 est = int(s["l"].split()[1])
-        shutting = any(m[0] == "shutdown" for s in steps for m in s["em"][0] + s["em"][1])
-        d = [x for x in steps[-1]["d"] if x is not None and x["fund"] == 1]
-        if shutting and d and d[0]["self"] // 1000 < est * 800 // 1000 and not d[0]["in"] and not d[0]["out"]:
-            return KEY_COOP
+        est = max(est, 253)
+        spk = [m[1] for s in steps for m in s["em"][0] + s["em"][1] if m[0] == "shutdown"]
+        last = steps[-1] if coop_panic else steps[max(0, f["step"] - 1)]
+        d = [x for x in last["d"] if x is not None and x["fund"] == 1]
+        if spk and d and not d[0]["in"] and not d[0]["out"]:
+            lens = (spk + spk)[:2]
+            weight = (4 + 1 + 36 + 1 + 4 + 1 + 4) * 4 + 2 + 1 + 4 + 71 + 2 * 72 + sum((9 + n) * 4 for n in lens)
+            min_fee = est * weight // 1000
+            if d[0]["self"] // 1000 < min_fee:
+                return KEY_COOP
     if f["judge"] == "e:limits-sound" and "in-sync peer" in f["why"] and ("ChannelBalanceOverdrawn" in f["why"] or "FeeSpikeBuffer" in f["why"]):
-        s = steps[f["step"]]
+        # (2) sender is the non-funder, amount within [min, limit], peer in sync, graceful fail-back whose
+        # only cause is the funder-receiver's extra fee-spike-buffer HTLC
+        i = f["step"]
+        s = steps[i]
         x = int(s["l"].split()[1])
+        amt = int(s["l"].split()[2])
         d = s["d"][x]
-        if d is not None and d["fund"] == 0 and rec["cfg"]["ct"] != 2:
+        if d is None or d["fund"] != 0 or ct == 2 or s.get("sync") != 1 or not (s["min"] <= amt <= s["lim"]):
+            return None
+        j = i + 1
+        unharmed = True
+        recv_dump = None
+        while j < len(steps) and (steps[j].get("probe") or "").endswith("-follow"):
+            if steps[j]["errs"] or any(e[1] == "closed" for e in steps[j]["ev"]):
+                unharmed = False
+            if any(e[1] == "htlc_handling_failed" for e in steps[j]["ev"]) and recv_dump is None:
+                recv_dump = steps[j - 1]["d"][1 - x]
+            j += 1
+        if not unharmed or recv_dump is None:
+            return None
+        fr = max(recv_dump["fr"], recv_dump["pfee"][0] if recv_dump["pfee"] else 0)
+        without = funder_can_pay(ct, recv_dump, True, 0, fr) and funder_can_pay(ct, recv_dump, False, 0, fr)
+        with_buf = funder_can_pay(ct, recv_dump, True, 1, fr) and funder_can_pay(ct, recv_dump, False, 1, fr)
+        if without and not with_buf:
             return KEY_LIMIT
     return None
 
@@ -572,6 +623,7 @@ def trace_layer(ctx):
             fails.append((line, r, f))
     ctx.coverage["trace"] = {"schedules": len(lines), "max_labels": nl, "families": fam, "steps": sum(len(r.get("steps", [])) for r in recs), "judged": tot}
     ctx.coverage["trace_distinct_nontrivial"] = nontrivial
+    ctx.trace_recs = recs
     if recs and "steps" in recs[0] and len(recs[0]["steps"]) > 3:
         s = recs[0]["steps"][3]
         ctx.samples.append({"trace_schedule": lines[0][:200], "step3": {"label": s["l"], "commits": s["commits"][:1], "det": s["det"]}})
@@ -618,6 +670,18 @@ def run(ctx):
     dis, fails = functional(ctx, okm)
     n_func = sum(ctx.coverage.get("functional_cases", {}).values())
     tfails = trace_layer(ctx)
+    # protocol-layer model (Model/ChanSys.v) must reproduce the real traces step by step
+    mdis = []
+    if gen_err is None and getattr(ctx, "trace_recs", None):
+        okc, outc = ctx.coq_make(["Model/ChanSys.vo"])
+        if okc:
+            try:
+                nr, ns, mdis = T.model_correspondence(ctx, ctx.trace_recs, 48 if ctx.tier == "quick" else 1500)
+                ctx.coverage["model_replay"] = {"scenarios": nr, "steps": ns, "disagreements": len(mdis)}
+            except Exception as ex:
+                mdis = [{"scenario": "?", "step": -1, "what": "model replay failed: %r" % (ex,)}]
+        else:
+            mdis = [{"scenario": "?", "step": -1, "what": "Model/ChanSys.v does not build: " + outc[-800:]}]
     ctx.coverage["evaluations"] = n_func + ctx.coverage.get("trace", {}).get("steps", 0)
     ctx.coverage["distinct_nontrivial"] = ctx.coverage.get("bc_distinct_nontrivial", 0) + ctx.coverage.get("trace_distinct_nontrivial", 0)
     ctx.coverage["rule"] = "amount layer: distinct build_commitment_transaction inputs with at least one HTLC (set of full input tuples); trace layer: distinct (schedule, config) pairs that reach at least one signed commitment with an HTLC"
@@ -628,6 +692,8 @@ def run(ctx):
         broken.append({"obligation": "Coq proof of Props/C01.v", "detail": getattr(ctx, "proof_failure", {"where": gen_err})})
     if dis:
         broken.append({"correspondence": "h_commit vs Model/CommitAmounts.v + Gen/TxBuilder.v", "first_disagreements": dis[:5], "n": len(dis)})
+    if mdis:
+        broken.append({"correspondence": "h_chan real traces vs Model/ChanSys.v (per-step states and commitments)", "first_disagreements": mdis[:3], "n": len(mdis)})
     reported = set()
     for (line, rec, f) in tfails:
         key = classify_known(rec, f)
@@ -642,7 +708,7 @@ def run(ctx):
             except Exception as ex:  # shrinking is best effort
                 ctx.log("shrink failed:", repr(ex))
         ctx.violation("C01 fails on real nodes (%s): %s" % (f["judge"], f["why"][:500]),
-                      {"broken": broken_placeholder(proved, dis), "failing_input": {"schedule": small, "original_schedule": line, "step": f["step"], "judge": f["judge"], "why": f["why"]},
+                      {"broken": broken_placeholder(proved, dis, mdis), "failing_input": {"schedule": small, "original_schedule": line, "step": f["step"], "judge": f["judge"], "why": f["why"]},
                        "replay_kind": "h_chan", "replay_cmd": "%s <file with the schedule line> <out>" % ctx.bin_path("h_chan")}, True, key=key)
     if fails:
         fails.sort(key=lambda x: len(x["case_line"]))
